@@ -178,6 +178,12 @@ def conv_dec(raw, srcname, api="chunks", aad="key", sid="", variants=1):
                 lenf_r = plen_r + (lenf - plen_m)
             rec = {"src": r["src"], "idx": r["idx"], "flagf": r["flagf"], "lenf": lenf_r,
                    "ctrf": r["idx"] if r["ctrok"] else r["idx"] + 1 + v}
+            if r["src"] == 99:
+                # forged record: attacker-made bytes, body length = its length field (model scale = real scale here)
+                rec = {"src": 99, "idx": r["idx"], "flagf": r["flagf"], "lenf": r["lenf"], "ctrf": r["idx"], "forged": True,
+                       "plen": r["lenf"], "last": r["flagf"]}
+                recs.append(rec)
+                continue
             if r["tam"]:
                 nbits = (plen_r + 16) * 8
                 # first ciphertext byte, last tag byte, middle
@@ -199,15 +205,16 @@ def conv_dec(raw, srcname, api="chunks", aad="key", sid="", variants=1):
                 cut = 0 if o == 0 else (1 if o == 1 else hreal - 1)
             else:
                 k = cr["rec"]
-                start = hreal + sum(32 + f["recs"][i]["plen"] * scale for i in range(k - 1))
+                start = hreal + sum(32 + f["recs"][i]["plen"] * (1 if f["recs"][i]["src"] == 99 else scale) for i in range(k - 1))
                 plen_m = f["recs"][k - 1]["plen"]
+                sc_k = 1 if f["recs"][k - 1]["src"] == 99 else scale
                 o = cr["off"]
                 if o <= 16:
                     off = o
                 elif o == 16 + plen_m:
-                    off = 16 + plen_m * scale
+                    off = 16 + plen_m * sc_k
                 else:
-                    off = 31 + plen_m * scale
+                    off = 31 + plen_m * sc_k
                 cut = start + off
             file["cut"] = cut
         rs, _ = _dirs(raw["rs"])
